@@ -21,7 +21,7 @@ PROPS = {
                         "(known finding C18-pool)"],
     },
     "C01": {"families": ["api_optimize", "norm_none", "cleanup_execute", "unused_execute", "projection_execute"], "oracle": "sem"},
-    "C02": {"families": ["unify_pairs", "unify_sequences"], "oracle": "sem"},
+    "C02": {"families": ["unify_pairs", "unify_sequences", "sumchains_get_var", "sumchains_replace_optimize", "sumchains_execute", "minmax_replace_minimize", "minmax_replace_sum", "minmax_execute", "inline_minimize", "inline_execute"], "oracle": "sem"},
     "C03": {"families": ["binding_body", "binding_head", "norm_inline", "cleanup_mappings", "dep_create_domain"], "oracle": "struct"},
     "C04": {"families": ["unique_variables", "unique_names", "binding_body"], "oracle": "struct"},
     "C05": {"families": ["norm_replace_old_aggregates", "norm_remove_bounds", "norm_expand_comparisons", "norm_unpool", "norm_preprocess", "norm_exline", "norm_inline", "norm_none"], "oracle": "sem"},
